@@ -107,6 +107,17 @@ func TestCheck(t *testing.T) {
 			r.Case(fmt.Sprintf("least-active/n%d/%d", n, k), func(c *h.Case) { leastActive(c, n, k) })
 		}
 	}
+	for i, w := range vecs {
+		if len(w) < 2 || i%7 != 0 && len(w) > 2 {
+			continue
+		}
+		w := w
+		r.Case(fmt.Sprintf("failing-server-share/%v", w), func(c *h.Case) { failingShare(c, w) })
+	}
+	for n := 2; n <= 4; n++ {
+		n := n
+		r.Case(fmt.Sprintf("least-active/shrink-while-busy/n%d", n), func(c *h.Case) { shrinkWhileBusy(c, n) })
+	}
 	r.Case("random/membership-and-share", func(c *h.Case) { randomShare(c) })
 	for k := 0; k < r.Pick(6, 60); k++ {
 		k := k
@@ -713,4 +724,132 @@ func concurrent(c *h.Case, k int) {
 		}
 		c.R.Distinct(fmt.Sprintf("cc|%s|%d", b.name, k))
 	}
+}
+
+// failingShare: one server fails every call, whichever position it has in the balancer's own
+// order. Its effective weight goes to zero; from then on, while another server still has a
+// positive weight, it must not be picked at all (its share is reduced to nothing).
+func failingShare(c *h.Case, w []int) {
+	n := len(w)
+	for bi, mk := range []func() (interface{}, weighted, []*url.URL, []int64){
+		func() (interface{}, weighted, []*url.URL, []int64) {
+			lb := lbp.NewNginxRoundRobinLoadBalance(weightMap(w))
+			return lb, lb, lb.URLs, lb.Weights
+		},
+		func() (interface{}, weighted, []*url.URL, []int64) {
+			lb := lbp.NewWeightedRandomLoadBalance(weightMap(w))
+			return lb, lb, lb.URLs, lb.Weights
+		},
+	} {
+		name := []string{"nginx-round-robin", "weighted-random"}[bi]
+		for p := 0; p < n; p++ {
+			plug, acc, lbURLs, lbW := mk()
+			failing := lbURLs[p].String()
+			tm := newTerm(func(_ int, u string) byte {
+				if u == failing {
+					return 'E'
+				}
+				return 'S'
+			})
+			client := core.NewClient(urlsN(n)...)
+			client.Use(plug, tm.handler)
+			rep := map[string]interface{}{"balancer": name, "weights_in_balancer_order": fmt.Sprint(lbW), "failing_position": p}
+			zero := false
+			for i := 0; i < 400*n && !zero; i++ {
+				invoke(client)
+				c.R.Eval(1)
+				zero = acc.VerifEffectiveWeights()[p] == 0
+			}
+			if !zero {
+				c.Violation("failing-server-keeps-its-weight:"+name, fmt.Sprintf("server at position %d fails every call; after %d calls its effective weight is %d", p, 400*n, acc.VerifEffectiveWeights()[p]), rep)
+				continue
+			}
+			before := len(tm.picks)
+			for i := 0; i < 300; i++ {
+				invoke(client)
+				c.R.Eval(1)
+			}
+			picked := 0
+			for _, u := range tm.picks[before:] {
+				if u == failing {
+					picked++
+				}
+			}
+			if picked > 0 {
+				c.Violation("failing-server-keeps-its-share:"+name, fmt.Sprintf("the server at position %d of %d (weight %d) has effective weight 0, the others are healthy, and it was still picked %d times in the next 300 calls", p, n, lbW[p], picked), rep)
+			}
+			c.R.Distinct(fmt.Sprintf("failing-share|%s|%v|%d", name, w, p))
+		}
+	}
+}
+
+// shrinkWhileBusy: calls are parked on some servers, then the client's server list is shortened
+// (and later extended again) while they are in flight. Picks stay among the current servers, a
+// pick goes to a server with the fewest calls in flight among those, and the counters of the
+// servers that remain are not forgotten.
+func shrinkWhileBusy(c *h.Case, n int) {
+	urls := urlsN(n)
+	lb := lbp.NewLeastActiveLoadBalance()
+	hold := true
+	tm := newTerm(func(int, string) byte {
+		if hold {
+			return 'H'
+		}
+		return 'S'
+	})
+	client := core.NewClient(urls...)
+	client.Use(lb, tm.handler)
+	// park one call on every server but the last: least-active spreads them
+	var wg sync.WaitGroup
+	for i := 0; i < n-1; i++ {
+		wg.Add(1)
+		go func() { defer wg.Done(); invoke(client) }()
+		<-tm.parked
+	}
+	busy := map[string]int{}
+	tm.mu.Lock()
+	for u, chs := range tm.holds {
+		busy[u] = len(chs)
+	}
+	tm.mu.Unlock()
+	// shorten the list to the first two servers (n >= 2)
+	keep := 2
+	client.SetURI(urls[:keep]...)
+	hold = false
+	rep := map[string]interface{}{"servers": n, "kept": keep, "in_flight_before": fmt.Sprint(busy)}
+	for i := 0; i < 6; i++ {
+		before := len(tm.picks)
+		invoke(client)
+		c.R.Eval(1)
+		u := tm.picks[before]
+		if !member(u, urls[:keep]) {
+			c.Violation("pick-not-a-configured-server:least-active-after-shrink", u, rep)
+			break
+		}
+		// the fewest in flight among the kept servers
+		min := 1 << 30
+		for _, k := range urls[:keep] {
+			if busy[k] < min {
+				min = busy[k]
+			}
+		}
+		if busy[u] != min {
+			c.Violation("busy-server-picked-while-an-idle-one-exists:least-active-after-shrink", fmt.Sprintf("after the server list was shortened while calls were in flight, pick %d went to %s (%d in flight) although a kept server has %d", i, u, busy[u], min), rep)
+			break
+		}
+	}
+	// release the parked calls
+	tm.mu.Lock()
+	for _, chs := range tm.holds {
+		for _, ch := range chs {
+			ch <- 'S'
+		}
+	}
+	tm.holds = map[string][]chan byte{}
+	tm.mu.Unlock()
+	wg.Wait()
+	if got := lb.VerifActives(); !allZero(got) {
+		c.Violation("actives-not-zero-at-quiescence:least-active-after-shrink", fmt.Sprintf("all calls have finished, in-flight counters are %v", got), rep)
+	}
+	c.R.Distinct(fmt.Sprintf("shrink|%d", n))
 }
